@@ -282,6 +282,33 @@ func runC16(r *Run) {
 		var originShaped func(v ssa.Value) (bool, string)
 		originShaped = func(v ssa.Value) (bool, string) {
 			v = stripValue(v)
+			if pa, ok := v.(*ssa.Parameter); ok {
+				// the comparison lives in a helper of the package that is handed the value: judged at every call
+				g := pa.Parent()
+				if g != nil && g.Object() != nil && !g.Object().Exported() {
+					idx := -1
+					for i, q := range g.Params {
+						if q == pa {
+							idx = i
+						}
+					}
+					calls := staticCallersOf(g)
+					if idx >= 0 && len(calls) > 0 {
+						why := ""
+						for _, c := range calls {
+							if idx >= len(c.Call.Args) {
+								return false, "handed to " + g.Name() + " in a way the rule does not read"
+							}
+							ok, w := originShaped(c.Call.Args[idx])
+							if !ok {
+								return false, w + " (handed to " + g.Name() + " at " + r.pos(c) + ")"
+							}
+							why = w
+						}
+						return true, why + " (through " + g.Name() + ")"
+					}
+				}
+			}
 			if c, ok := v.(*ssa.Call); ok {
 				n := calleeName(&c.Call)
 				// a helper of the package that builds the origin (`originOfURL(u)`): judged by what it returns
